@@ -127,6 +127,7 @@ macro_rules! access_1d_slice {
 macro_rules! access_1d_slice_bool {
   ($source:expr, $ix:expr, $out:expr) => {
     unsafe { 
+      if (*$ix).len() != (*$source).len() { panic!("Index out of bounds: logical index length does not match the indexed dimension"); }
       let mut j = 0;
       let out_len = (*$out).len();
       for i in 0..(*$ix).len() {
@@ -149,6 +150,7 @@ macro_rules! access_1d_slice_bool {
 macro_rules! access_1d_slice_bool_v {
   ($source:expr, $ix:expr, $out:expr) => {
     unsafe { 
+      if (*$ix).len() != (*$source).len() { panic!("Index out of bounds: logical index length does not match the indexed dimension"); }
       let mut j = 0;
       let out_len = (*$out).len();
       for i in 0..(*$ix).len() {
@@ -173,6 +175,7 @@ macro_rules! access_2d_row_slice_bool {
     unsafe { 
       let scalar_ix = &(*$ix1);
       let vec_ix = &(*$ix2);
+      if vec_ix.len() != (*$source).ncols() { panic!("Index out of bounds: logical index length does not match the indexed dimension"); }
       let mut j = 0;
       let out_len = (*$out).len();
       for i in 0..vec_ix.len() {
@@ -197,6 +200,7 @@ macro_rules! access_2d_col_slice_bool {
     unsafe { 
       let vec_ix = &(*$ix1);
       let scalar_ix = &(*$ix2);
+      if vec_ix.len() != (*$source).nrows() { panic!("Index out of bounds: logical index length does not match the indexed dimension"); }
       let mut j = 0;
       let out_len = (*$out).len();
       for i in 0..vec_ix.len() {
@@ -235,6 +239,7 @@ macro_rules! access_2d_slice_bool {
     unsafe { 
       let ix1 = &(*$ix1);
       let ix2 = &(*$ix2);
+      if ix1.len() != (*$source).nrows() { panic!("Index out of bounds: logical index length does not match the indexed dimension"); }
       let mut j = 0;
       let out_len = (*$out).len();
       for i in 0..ix1.len() {
@@ -261,6 +266,7 @@ macro_rules! access_2d_slice_bool2 {
     unsafe { 
       let ix1 = &(*$ix1);
       let ix2 = &(*$ix2);
+      if ix2.len() != (*$source).ncols() { panic!("Index out of bounds: logical index length does not match the indexed dimension"); }
       let mut j = 0;
       let out_len = (*$out).len();
       for i in 0..ix2.len() {
@@ -287,6 +293,7 @@ macro_rules! access_2d_slice_bool_bool {
     unsafe { 
       let ix1 = &(*$ix1);
       let ix2 = &(*$ix2);
+      if ix1.len() != (*$source).nrows() || ix2.len() != (*$source).ncols() { panic!("Index out of bounds: logical index length does not match the indexed dimension"); }
       let mut k = 0;
       let mut j = 0;
       let out_len = (*$out).len();
@@ -332,6 +339,7 @@ macro_rules! access_2d_slice_all_bool {
   ($source:expr, $ix:expr, $out:expr) => {
     unsafe { 
       let vec_ix = &(*$ix);
+      if vec_ix.len() != (*$source).nrows() { panic!("Index out of bounds: logical index length does not match the indexed dimension"); }
       let mut j = 0;
       let out_len = (*$out).len();
       for i in 0..vec_ix.len() {
@@ -343,8 +351,8 @@ macro_rules! access_2d_slice_all_bool {
         (*$out).resize_vertically_mut(j, (&mut (*$out))[0].clone());
       }
       j = 0;
-      for i in 0..vec_ix.len() {
-        for k in 0..(*$source).ncols() {
+      for k in 0..(*$source).ncols() {
+        for i in 0..vec_ix.len() {
           if vec_ix[i] == true {
             (&mut (*$out))[j] = (*$source).index((i, k)).clone();
             j += 1;
@@ -1213,6 +1221,7 @@ impl NativeFunctionCompiler for MatrixAccessRange {
 macro_rules! access_2d_range_range_vbb {
   ($sink:expr, $ix1:expr, $ix2:expr, $source:expr) => {
     unsafe { 
+      if ($ix1).len() != ($source).nrows() || ($ix2).len() != ($source).ncols() { panic!("Index out of bounds: logical index length does not match the indexed dimension"); }
       let mut sink_rix = 0;
       let mut sink_cix = 0;
       for r in 0..($ix1).len() {
@@ -1251,6 +1260,7 @@ macro_rules! access_2d_range_range_vuu {
 macro_rules! access_2d_range_range_vub {
   ($sink:expr, $ix1:expr, $ix2:expr, $source:expr) => {
     unsafe { 
+      if ($ix2).len() != ($source).ncols() { panic!("Index out of bounds: logical index length does not match the indexed dimension"); }
       let mut sink_rix = 0;
       let mut sink_cix = 0;
       for r in 0..($ix1).len() {
@@ -1270,6 +1280,7 @@ macro_rules! access_2d_range_range_vub {
 macro_rules! access_2d_range_range_vbu {
   ($sink:expr, $ix1:expr, $ix2:expr, $source:expr) => {
     unsafe { 
+      if ($ix1).len() != ($source).nrows() { panic!("Index out of bounds: logical index length does not match the indexed dimension"); }
       let mut sink_rix = 0;
       let mut sink_cix = 0;
       for r in 0..($ix1).len() {
@@ -1681,6 +1692,7 @@ macro_rules! assign_2d_all_range_v {
 macro_rules! assign_2d_all_range_vb {
   ($source:expr, $ix:expr, $sink:expr) => {
     {
+      if (*$ix).len() != (*$source).ncols() { panic!("Index out of bounds: logical index length does not match the indexed dimension"); }
       let mut sink_col_ix = 0;
       for i in 0..(*$source).ncols() {
         if $ix[i] == true {
